@@ -2640,6 +2640,8 @@ static void struct_members(Token **rest, Token *tok, Type *ty) {
       mem->align = attr.align ? attr.align : mem->ty->align;
 
       if (consume(&tok, tok, ":")) {
+        if (!is_integer(mem->ty))
+          error_tok(mem->name ? mem->name : tok, "bit-field has invalid type");
         mem->is_bitfield = true;
         mem->bit_width = const_expr(&tok, tok);
       }
